@@ -62,8 +62,9 @@ AClear(aq) == <<>>
 EmptyHeap(N) == [data |-> [i \in 0..(N - 1) |-> 0], wr |-> 0, count |-> N, oob |-> FALSE]
 
 (* strnlen(&d[from], max); callers guarantee from + max <= N *)
-StrnLen(d, from, max) ==
-  LET Z == {k \in 0..(max - 1) : d[from + k] = 0} IN IF Z = {} THEN max ELSE Min(Z)
+RECURSIVE Scan(_, _, _, _)
+Scan(d, from, max, k) == IF k = max \/ d[from + k] = 0 THEN k ELSE Scan(d, from, max, k + 1)
+StrnLen(d, from, max) == Scan(d, from, max, 0)
 
 (* scpiheap_strndup: [ptr, h] *)
 Strndup(h, N, s) ==
@@ -154,8 +155,9 @@ ReusableWhenEmptyOf(st, N) ==
 Owned(st, N) == UNION {Cells(st.h.data, N, st.q[i].ptr) : i \in 1..Len(st.q)}
 (* accounting: count is exactly the number of cells no live string owns, and those are zero *)
 NoLeakOf(st, N) ==
-  /\ st.h.count = N - Cardinality(Owned(st, N))
-  /\ \A i \in 0..(N - 1) : i \notin Owned(st, N) => st.h.data[i] = 0
+  LET own == Owned(st, N) IN
+  /\ st.h.count = N - Cardinality(own)
+  /\ \A i \in (0..(N - 1)) \ own : st.h.data[i] = 0
 (* the live strings tile, in queue order, the ring segment that ends at wr *)
 ContiguousOf(st, N) ==
   LET I == {i \in 1..Len(st.q) : HasText(st.h.data, st.q[i].ptr)}
